@@ -253,6 +253,13 @@ func (st *Std) FoldExpr(e ast.Expr, s S) (constant.Value, bool) {
 		}
 		return foldBinary(a, b, x.Op)
 	case *ast.CallExpr:
+		// result of a call that was evaluated inline in this statement
+		switch r := s.Get(fmt.Sprintf("rc:%d:0", x.Pos())); {
+		case r == "true" || r == "false":
+			return constant.MakeBool(r == "true"), true
+		case strings.HasPrefix(r, "c:"):
+			return parseConstRepr(r[2:])
+		}
 		if b, ok := Callee(info, x).(*types.Builtin); ok && b.Name() == "len" && len(x.Args) == 1 {
 			if v, ok := st.FoldExpr(x.Args[0], s); ok && v.Kind() == constant.String {
 				return constant.MakeInt64(int64(len(constant.StringVal(v)))), true
@@ -425,6 +432,10 @@ func (st *Std) assign(s S, lhs ast.Expr, rhs ast.Expr, fromCall *ast.CallExpr, i
 			return s.Set("nn:"+id, "T")
 		case "true", "false":
 			return s.Set("v:"+id, st.CallResult(fromCall, idx, s))
+		default:
+			if r := st.CallResult(fromCall, idx, s); strings.HasPrefix(r, "c:") {
+				return s.Set("v:"+id, r[2:])
+			}
 		}
 		if isErrPos && types.Identical(o.Type(), types.Universe.Lookup("error").Type()) {
 			if q := QualName(Callee(info, fromCall)); q == "fmt.Errorf" || q == "errors.New" {
@@ -836,6 +847,11 @@ func (st *Std) inline(call *ast.CallExpr, n ast.Node, s S, cl *Client) []S {
 						// a predicate: evaluate the returned condition over the rule's atoms, so
 						// that `return x != "none"` is as transparent as the inline test
 						boolSplit = r
+					}
+				} else if ok && b.Info()&(types.IsInteger|types.IsString) != 0 {
+					// a constant index / code / name handed back (`return -1`, `return i` with i known)
+					if v, ok := st.FoldExpr(r, s2); ok && (v.Kind() == constant.Int || v.Kind() == constant.String) {
+						rc = append(rc, fmt.Sprintf("rc:%d:%d=c:%s", call.Pos(), i, constRepr(v)))
 					}
 				}
 			}
